@@ -161,8 +161,8 @@ pub fn interval(args: &[String]) {
                     let strict = !use_teval; // requested times may repeat
                     if (w[1] - w[0]) * dirn < 0.0 || (strict && w[1] == w[0]) { fail("c03-monotone", format!("sample times {} then {} do not move strictly toward xend", w[0], w[1])); }
                 }
-                // (the landing step is x + (xend - x), which may round one ulp past xend: the property says 'xend to rounding')
-                for t in &sol.t { if (t - c.xend) * dirn > 4.0 * f64::EPSILON * c.xend.abs().max(c.x0.abs()) { fail("c03-overshoot", format!("sample time {} lies beyond xend = {}", t, c.xend)); } }
+                // (the landing step sets the time to xend itself, so no sample may lie beyond xend, not even by a rounding error)
+                for t in &sol.t { if (t - c.xend) * dirn > 0.0 { fail("c03-overshoot", format!("sample time {} lies beyond xend = {}", t, c.xend)); } }
                 let slack = 1e-13 * (1.0 + lo.abs().max(hi.abs()));
                 for t in p.times.borrow().iter() {
                     if *t < lo - slack || *t > hi + slack { fail("c03-eval-outside", format!("right-hand side / Jacobian / event function evaluated at t = {} outside [{}, {}]", t, lo, hi)); break; }
@@ -265,8 +265,10 @@ pub fn interval(args: &[String]) {
         let mut k = 0;
         for method in ADAPTIVE {
             for kind in [Kind::Harmonic, Kind::VdP, Kind::Riccati, Kind::Mixed] {
-                for (span, mult, rtol) in [(5.0, 1.0, 1e-6), (3.0, 2.0, 1e-4), (1.0, 1.0 / 1.005, 1e-8), (-4.0, 1.5, 1e-5)] {
-                    let (x0, xend) = (0.0, span);
+                for (x0, span, mult, rtol) in [(0.0, 5.0, 1.0, 1e-6), (0.0, 3.0, 2.0, 1e-4), (0.0, 1.0, 1.0 / 1.005, 1e-8), (0.0, -4.0, 1.5, 1e-5),
+                                               (0.38770000000000004, 1.3467900000000002, 700.0, 1e-5), (0.1, 0.7, 3.0, 1e-4), (-0.3, 1.1, 1.0, 1e-6), (2.2, -1.9000000000000001, 50.0, 1e-5)] {
+                    if kind == Kind::Riccati && x0 != 0.0 { continue; }
+                    let xend = x0 + span;
                     let c = Cfg { kind, method, x0, xend, rtol, atol: rtol * 1e-2, first: Some(span * mult), maxstep: None, nmax: None };
                     let p = Prob::new(kind);
                     let b = Budgeted { p: &p, limit: 3_000_000, nan_after: None, jump_at: None, x0 };
@@ -278,16 +280,85 @@ pub fn interval(args: &[String]) {
                         Ok(Ok(sol)) => {
                             let last = *sol.t.last().unwrap();
                             extra = format!("\"status\":\"{:?}\",\"n\":{},\"last\":{},", sol.status, sol.t.len(), jnum(last));
-                            if sol.status == Status::Success && (last - xend).abs() > 1e-12 * (1.0 + xend.abs()) {
+                            if sol.status == Status::Success && last != xend {
                                 key = "c03-success-not-reached";
-                                why = format!("Success but the last sample is t = {} (xend = {}, {} samples): first_step = {} covers the interval", last, xend, sol.t.len(), span * mult);
+                                why = format!("Success but the last sample is t = {:?} (xend = {:?}, {} samples): first_step = {} covers the interval", last, xend, sol.t.len(), span * mult);
                             }
+                            if let Some(t) = sol.t.iter().find(|t| (**t - xend) * span.signum() > 0.0) { key = "c03-overshoot"; why = format!("sample time {:?} lies beyond xend = {:?} (first_step = {})", t, xend, span * mult); }
                         }
                     }
                     out("iv", 300000 + k, &c, "first-step-covers-span", key, &why, &extra);
                     k += 1;
                 }
             }
+        }
+    }
+    // a covering first step on intervals with awkward end points: x0 + (xend - x0) is not always xend, but no sample may lie
+    // beyond xend and a successful run ends at xend itself
+    {
+        let mut pairs: Vec<(f64, f64)> = vec![(0.38770000000000004, 1.7344900000000003)];
+        for _ in 0..40 { let a = rng.range(-3.0, 3.0); let b = a + rng.range(0.2, 4.0) * if rng.chance(0.4) { -1.0 } else { 1.0 }; pairs.push((a, b)); }
+        let mut k = 0;
+        for method in ADAPTIVE {
+            for &(x0, xend) in &pairs {
+                let c = Cfg { kind: Kind::Decay3, method, x0, xend, rtol: 1e-3, atol: 1e-6, first: Some(1e3), maxstep: None, nmax: None };
+                let p = Prob::new(Kind::Decay3);
+                let res = catch_unwind(AssertUnwindSafe(|| solve_ivp(&p, x0, xend, &p.y0(), c.opts())));
+                let (mut why, mut key, mut extra) = (String::new(), "", String::new());
+                if let Ok(Ok(sol)) = res {
+                    extra = format!("\"status\":\"{:?}\",\"n\":{},", sol.status, sol.t.len());
+                    let d = (xend - x0).signum();
+                    if let Some(t) = sol.t.iter().find(|t| (**t - xend) * d > 0.0) { key = "c03-overshoot"; why = format!("sample time {:?} lies beyond xend = {:?} (first_step = 1e3 covers the interval)", t, xend); }
+                    else if sol.status == Status::Success && *sol.t.last().unwrap() != xend { key = "c03-success-not-reached"; why = format!("Success but the last sample is {:?}, xend = {:?}", sol.t.last().unwrap(), xend); }
+                }
+                out("iv", 340000 + k, &c, "covering-first-step-ends", key, &why, &extra);
+                k += 1;
+            }
+        }
+    }
+    // a first_step far below the output handler's time tolerance: the sample times must still move strictly toward xend
+    {
+        let mut k = 0;
+        for method in ADAPTIVE {
+            for (xend, first) in [(1.0, 1e-13), (-1.0, 1e-13), (1.0, 3e-13), (2.0, 1e-15), (1.0, 9.9e-13)] {
+                let c = Cfg { kind: Kind::Decay3, method, x0: 0.0, xend, rtol: 1e-6, atol: 1e-9, first: Some(first), maxstep: None, nmax: None };
+                let p = Prob::new(Kind::Decay3);
+                let b = Budgeted { p: &p, limit: 3_000_000, nan_after: None, jump_at: None, x0: 0.0 };
+                let res = catch_unwind(AssertUnwindSafe(|| solve_ivp(&b, 0.0, xend, &p.y0(), c.opts())));
+                let (mut why, mut key, mut extra) = (String::new(), "", String::new());
+                match res {
+                    Err(_) => { why = "solve_ivp panicked or exceeded the work budget".into(); key = "c04-hang-or-panic"; }
+                    Ok(Err(_)) => { extra = "\"status\":\"Err\",".into(); }
+                    Ok(Ok(sol)) => {
+                        extra = format!("\"status\":\"{:?}\",\"n\":{},", sol.status, sol.t.len());
+                        let d = xend.signum();
+                        if let Some(w) = sol.t.windows(2).find(|w| (w[1] - w[0]) * d <= 0.0) { key = "c03-monotone"; why = format!("first_step = {:e}: sample times {:?} then {:?} do not move strictly toward xend (first samples {:?})", first, w[0], w[1], &sol.t[..sol.t.len().min(6)]); }
+                        else if sol.status == Status::Success && *sol.t.last().unwrap() != xend { key = "c03-success-not-reached"; why = format!("Success but the last sample is {:?}", sol.t.last()); }
+                    }
+                }
+                out("iv", 350000 + k, &c, "tiny-first-step", key, &why, &extra);
+                k += 1;
+            }
+        }
+    }
+    // RK4 through solve_ivp: first_step is the (positive) fixed step size in either direction
+    {
+        let mut k = 0;
+        for (x0, xend, first) in [(3.0, 0.0, 0.1), (0.0, -2.0, 0.25), (0.0, 2.0, 0.25), (1.0, -1.0, 0.5)] {
+            let c = Cfg { kind: Kind::Harmonic, method: Method::RK4, x0, xend, rtol: 1e-6, atol: 1e-9, first: Some(first), maxstep: None, nmax: None };
+            let p = Prob::new(Kind::Harmonic);
+            let res = catch_unwind(AssertUnwindSafe(|| solve_ivp(&p, x0, xend, &p.y0(), c.opts())));
+            let (mut why, mut key, mut extra) = (String::new(), "", String::new());
+            match res {
+                Err(_) => { why = "solve_ivp panicked".into(); key = "c04-hang-or-panic"; }
+                Ok(Err(e)) => { extra = "\"status\":\"Err\",".into(); key = "c11-rk4-first-step-sign"; why = format!("RK4 from {} to {} with first_step = {}: solve_ivp returns Err({:?}) instead of integrating with that step size", x0, xend, first, e).replace('"', "'"); }
+                Ok(Ok(sol)) => {
+                    extra = format!("\"status\":\"{:?}\",\"n\":{},", sol.status, sol.t.len());
+                    if sol.t.len() < 2 || ((sol.t[1] - sol.t[0]).abs() - first).abs() > 4.0 * f64::EPSILON * (1.0 + x0.abs()) { key = "c11-first-step"; why = format!("RK4 first_step = {}: first reported interval {:?}", first, &sol.t[..sol.t.len().min(2)]); }
+                }
+            }
+            out("iv", 360000 + k, &c, "rk4-first-step-sign", key, &why, &extra);
+            k += 1;
         }
     }
     // tiny but non-zero intervals (the zero-interval shortcut must not swallow them): Success means the last sample is xend
